@@ -143,20 +143,29 @@ type namedBytes []byte
 func checkC14(c c14Case) error {
 	compact := c.Tree.Compact()
 	// default-configuration witness: what the default configuration stores must not depend on calls made with other options
+	// (one process: default configuration, then the case's options through both JSON entry points, then the default again)
+	newProcess(Mode{})
+	sameProcess = true
 	defBefore, err := storeJSON(c.API, nil, c.Test, compact, "string")
-	if err != nil {
-		return err
+	if err == nil && c.Opt != nil {
+		_, err = storeJSON("json", c.Opt, c.Test, compact, "bytes")
+		if err == nil {
+			_, err = storeJSON("sjson", c.Opt, c.Test, string(c.Permuted), "string")
+		}
 	}
-	defer func() {}()
-	if err := checkC14Body(c, compact); err != nil {
-		return err
+	var defAfter string
+	if err == nil {
+		defAfter, err = storeJSON(c.API, nil, c.Test, string(c.Permuted), "bytes")
 	}
-	defAfter, err := storeJSON(c.API, nil, c.Test, string(c.Permuted), "bytes")
+	sameProcess = false
 	if err != nil {
 		return err
 	}
 	if defAfter != defBefore {
 		return fmt.Errorf("the default configuration stores %q differently after calls with options %+v (member order must not matter, keys are sorted by default):\nbefore %q\nafter  %q", clip(compact), c.Opt, clip(defBefore), clip(defAfter))
+	}
+	if err := checkC14Body(c, compact); err != nil {
+		return err
 	}
 	// Go values of defined string / byte-slice types go through their standard JSON encoding
 	vi := 0
